@@ -120,12 +120,16 @@ def penalizedDeviance (f : Family) (y mu : List α) (alpha : α) (coef : List α
   let nrm ← tailNorm coef
   pure (d + alpha * nrm)
 
-/-- `has_converged(loss, loss_previous, tolerance)`; `none` = the initial `f64::INFINITY`. -/
+/-- `has_converged(loss, loss_previous, tolerance)`; `none` = the initial `f64::INFINITY`.
+At `loss_previous = ±0` the source evaluates `|loss - 0| / 0`, which in IEEE arithmetic is `+inf` or `NaN` and never
+`< tolerance`: the test is false.  That case is written out (`lp == 0`), so that an instance in which `x / 0 = 0` (a
+field) does not declare convergence where the code does not; at `Float` the extra branch changes nothing. -/
 def hasConverged (loss : α) (lossPrev : Option α) (tol : α) : Bool :=
   match lossPrev with
   | none => false
   | some lp =>
     if GlmScalar.isInfinite lp then false
+    else if lp == 0 then false
     else decide (Transc.abs (loss - lp) / lp < tol)
 
 /-- `weights * (y - mu) * (dmu / var)`: `vmul(&vmul(weights, &vsub(y, mu)), &vdiv(dmu, var))`. -/
